@@ -31,9 +31,26 @@ pub enum End {
     SplitDropSendFirst,
     SplitDropRecvFirst,
     StillRunning,
+    /// the response has been sent and finish() has returned, but the handler keeps the handle (it is still in progress)
+    FinishedHeld,
+    /// split; the send half has finished and is dropped, the receive half is kept
+    SplitSendFinishedRecvHeld,
 }
 
-pub const ENDS: [End; 10] = [End::Normal, End::DropResolver, End::FinBeforeHeaders, End::ResetBeforeHeaders, End::ResetAfterHeaders, End::Malformed, End::Oversize, End::SplitDropSendFirst, End::SplitDropRecvFirst, End::StillRunning];
+pub const ENDS: [End; 12] = [
+    End::Normal,
+    End::DropResolver,
+    End::FinBeforeHeaders,
+    End::ResetBeforeHeaders,
+    End::ResetAfterHeaders,
+    End::Malformed,
+    End::Oversize,
+    End::SplitDropSendFirst,
+    End::SplitDropRecvFirst,
+    End::StillRunning,
+    End::FinishedHeld,
+    End::SplitSendFinishedRecvHeld,
+];
 
 #[derive(Clone, Debug)]
 pub struct Case {
@@ -42,8 +59,9 @@ pub struct Case {
     pub goaway_at: usize,
     /// the requests arrive in descending stream-ID order (the h3::quic traits allow any order)
     pub reversed: bool,
-    /// the peer sends its GOAWAY twice with the same identifier (legal: identifiers must not INCREASE)
-    pub goaway_twice: bool,
+    /// the identifiers of the GOAWAY frames the peer sends at that point (client to server they are push ids: any
+    /// value is legal, as long as a later one is not larger)
+    pub goaway_ids: Vec<u64>,
 }
 
 #[derive(Debug, Clone, Default, PartialEq, Eq)]
@@ -100,6 +118,32 @@ pub fn execute(case: &Case, seed: u64) -> Outcome {
                                     // hold the handles forever
                                     std::future::pending::<()>().await;
                                     drop(r);
+                                }
+                                End::FinishedHeld => {
+                                    let r = async {
+                                        let (_req, mut s) = resolver.resolve_request().await?;
+                                        while s.recv_data().await?.is_some() {}
+                                        s.recv_trailers().await?;
+                                        s.send_response(http::Response::builder().status(200).body(()).unwrap()).await?;
+                                        s.send_data(Bytes::from_static(b"ok")).await?;
+                                        s.finish().await?;
+                                        Ok::<_, h3::error::StreamError>(s)
+                                    }
+                                    .await;
+                                    if let Ok(s) = r {
+                                        std::future::pending::<()>().await;
+                                        drop(s);
+                                    }
+                                }
+                                End::SplitSendFinishedRecvHeld => {
+                                    if let Ok((_req, stream)) = resolver.resolve_request().await {
+                                        let (mut tx, rx) = stream.split();
+                                        let _ = tx.send_response(http::Response::builder().status(200).body(()).unwrap()).await;
+                                        let _ = tx.finish().await;
+                                        drop(tx);
+                                        std::future::pending::<()>().await;
+                                        drop(rx);
+                                    }
                                 }
                                 End::SplitDropSendFirst | End::SplitDropRecvFirst => {
                                     if let Ok((_req, stream)) = resolver.resolve_request().await {
@@ -160,9 +204,8 @@ pub fn execute(case: &Case, seed: u64) -> Outcome {
             let f = |n: &str, v: &[u8]| (n.as_bytes().to_vec(), v.to_vec());
             for i in 0..=case.ends.len() {
                 if i == case.goaway_at {
-                    net.raw_write(CLIENT, CLIENT_CTRL, &rf::frame(rf::GOAWAY, &[0x00]));
-                    if case.goaway_twice {
-                        net.raw_write(CLIENT, CLIENT_CTRL, &rf::frame(rf::GOAWAY, &[0x00]));
+                    for id in &case.goaway_ids {
+                        net.raw_write(CLIENT, CLIENT_CTRL, &rf::frame(rf::GOAWAY, &refimpl::varint::encode(*id).unwrap()));
                     }
                     yield_now().await;
                 }
@@ -306,7 +349,7 @@ pub fn burst_run(n: usize) -> (Vec<String>, bool, usize, Vec<(String, String)>) 
 }
 
 pub fn judge(case: &Case, o: &Outcome) -> Vec<(String, String)> {
-    let ctx = format!("requests (by stream id / 4) ending {:?}, arriving in {} id order, peer GOAWAY{} before arrival #{}", case.ends, if case.reversed { "descending" } else { "ascending" }, if case.goaway_twice { " (sent twice)" } else { "" }, case.goaway_at);
+    let ctx = format!("requests (by stream id / 4) ending {:?}, arriving in {} id order, peer GOAWAY{} before arrival #{}", case.ends, if case.reversed { "descending" } else { "ascending" }, if case.goaway_ids != [0] { format!(" (identifiers {:?})", case.goaway_ids) } else { String::new() }, case.goaway_at);
     let mut out = Vec::new();
     for (t, p) in &o.panics {
         out.push((format!("C09:panic@{}", explore::panics::short_loc(p)), format!("{ctx}: task {t} panicked: {p}")));
@@ -353,7 +396,7 @@ pub fn run(args: &Args) -> i32 {
     let mut rep = Report::new("C09", args.tier, args.seed, "model_checking");
     rep.exhaustive = true;
     rep.rule = format!(
-        "0..{n} requests, each ending in one of {{normal finish, resolver dropped before resolve_request, FIN before HEADERS, RESET before HEADERS, RESET after HEADERS, malformed headers, oversized headers, split into halves dropped send-first / recv-first, handler still running}} (all {}^k assignments), the peer's GOAWAY injected before each request and after the last, requests arriving in ascending and in descending stream-ID order, the GOAWAY sent once or twice with the same identifier, every execution with <= {bound} scheduling deviations among the accept loop, the handler tasks and the script. Oracle at quiescence: GOAWAY delivered and every handed-out request ended => accept() has returned Ok(None); accept() never returns Ok(None) while a handler still holds a request handle. states = distinct (transport, progress) fingerprints; non-trivial = cases with at least one request.",
+        "0..{n} requests, each ending in one of {{normal finish, resolver dropped before resolve_request, FIN before HEADERS, RESET before HEADERS, RESET after HEADERS, malformed headers, oversized headers, split into halves dropped send-first / recv-first, handler still running, response finished but the handle kept, split with the send half finished and dropped and the receive half kept}} (all {}^k assignments), the peer's GOAWAY injected before each request and after the last, requests arriving in ascending and in descending stream-ID order, the peer's GOAWAY carrying identifier 0, 0 twice, 3, 2^62-1, or 2^62-1 followed by 1 (client to server these are push ids; any value is legal), every execution with <= {bound} scheduling deviations among the accept loop, the handler tasks and the script. Oracle at quiescence: GOAWAY delivered and every handed-out request ended => accept() has returned Ok(None); accept() never returns Ok(None) while a handler still holds a request handle. states = distinct (transport, progress) fingerprints; non-trivial = cases with at least one request.",
         ENDS.len()
     );
     rep.assumptions = vec!["liveness is decided at quiescence of the closed world (no timers, nothing in flight), where 'still pending' means 'pending forever'".into()];
@@ -375,12 +418,14 @@ pub fn run(args: &Args) -> i32 {
     }
     for c in combos {
         for g in 0..=c.len() {
-            cases.push(Case { ends: c.clone(), goaway_at: g, reversed: false, goaway_twice: false });
+            cases.push(Case { ends: c.clone(), goaway_at: g, reversed: false, goaway_ids: vec![0] });
             if c.len() >= 2 {
-                cases.push(Case { ends: c.clone(), goaway_at: g, reversed: true, goaway_twice: false });
+                cases.push(Case { ends: c.clone(), goaway_at: g, reversed: true, goaway_ids: vec![0] });
             }
             if c.len() <= 2 {
-                cases.push(Case { ends: c.clone(), goaway_at: g, reversed: false, goaway_twice: true });
+                for ids in [vec![0, 0], vec![3], vec![(1 << 62) - 1], vec![(1 << 62) - 1, 1]] {
+                    cases.push(Case { ends: c.clone(), goaway_at: g, reversed: false, goaway_ids: ids });
+                }
             }
         }
     }
@@ -413,7 +458,7 @@ pub fn run(args: &Args) -> i32 {
         if !case.ends.is_empty() {
             acc.nontrivial.insert(explore::fnv_str(&format!("{case:?}")));
         }
-        viol.drain_into(acc, |choices| json!({"ends": case.ends.iter().map(|e| format!("{e:?}")).collect::<Vec<_>>(), "goaway_at": case.goaway_at, "reversed": case.reversed, "goaway_twice": case.goaway_twice, "choices": choices, "seed": seed}));
+        viol.drain_into(acc, |choices| json!({"ends": case.ends.iter().map(|e| format!("{e:?}")).collect::<Vec<_>>(), "goaway_at": case.goaway_at, "reversed": case.reversed, "goaway_ids": case.goaway_ids, "choices": choices, "seed": seed}));
     });
     let mut total = Acc::new();
     for a in accs {
@@ -457,7 +502,10 @@ pub fn replay(r: &Value) -> i32 {
         ends: r["ends"].as_array().unwrap().iter().map(|s| *ENDS.iter().find(|e| format!("{e:?}") == s.as_str().unwrap()).unwrap()).collect(),
         goaway_at: r["goaway_at"].as_u64().unwrap() as usize,
         reversed: r["reversed"].as_bool().unwrap_or(false),
-        goaway_twice: r["goaway_twice"].as_bool().unwrap_or(false),
+        goaway_ids: match r["goaway_ids"].as_array() {
+            Some(a) => a.iter().map(|v| v.as_u64().unwrap()).collect(),
+            None => if r["goaway_twice"].as_bool().unwrap_or(false) { vec![0, 0] } else { vec![0] },
+        },
     };
     let seed = r["seed"].as_u64().unwrap_or(0);
     let choices: Vec<u32> = r["choices"].as_array().unwrap().iter().map(|v| v.as_u64().unwrap() as u32).collect();
